@@ -249,22 +249,7 @@ func ruleMATRIX(c *Ctx) {
 			c.Undecide("jsontext.(*stateMachine)."+m, "method missing")
 			continue
 		}
-		info := f.Info()
-		ok := false
-		for _, cc := range findAll[*ast.CaseClause](f.Body()) {
-			if len(cc.List) != 1 {
-				continue
-			}
-			if call, isCall := ast.Unparen(cc.List[0]).(*ast.CallExpr); isCall {
-				if _, isNeed := MethodCall(info, call, "jsontext", "stateEntry", "NeedObjectName"); isNeed {
-					for _, r := range findAll[*ast.ReturnStmt](&ast.BlockStmt{List: cc.Body}) {
-						if len(r.Results) == 1 && IdentObj(info, r.Results[0]) == nonStr {
-							ok = true
-						}
-					}
-				}
-			}
-		}
+		ok := nameGuardOK(p, f, nonStr)
 		c.Oblige("O5-string-names:"+m, f.Pos(), ok, "a non-string token at a name position is not rejected with ErrNonStringName")
 	}
 	if f := p.Func("jsontext.(*stateMachine).appendNumber"); f != nil && f.Body() != nil {
@@ -275,17 +260,8 @@ func ruleMATRIX(c *Ctx) {
 			}
 		}
 		if !delegates {
-			// must have its own NeedObjectName case
-			ok := false
-			for _, cc := range findAll[*ast.CaseClause](f.Body()) {
-				if len(cc.List) == 1 {
-					if call, isCall := ast.Unparen(cc.List[0]).(*ast.CallExpr); isCall {
-						if _, isNeed := MethodCall(f.Info(), call, "jsontext", "stateEntry", "NeedObjectName"); isNeed {
-							ok = true
-						}
-					}
-				}
-			}
+			// must have its own NeedObjectName guard
+			ok := nameGuardOK(p, f, nonStr)
 			c.Oblige("O5-string-names:appendNumber", f.Pos(), ok, "numbers at a name position are not rejected")
 		} else {
 			c.OK("O5-string-names:appendNumber", f.Pos(), "delegates to appendLiteral")
@@ -565,4 +541,46 @@ func rulePANIC1(c *Ctx) {
 		}
 		c.Oblige("panic-budget:"+fn, p.Func(fn).Pos(), counts[fn] <= budget, fmt.Sprintf("function has %d panic sites, %d were reviewed", counts[fn], budget))
 	}
+}
+
+// nameGuardOK checks, path-sensitively and independent of the if/switch form,
+// that a stateMachine method returns nil only on paths where NeedObjectName()
+// was tested and false, and returns ErrNonStringName wherever it was true.
+func nameGuardOK(p *Program, f *FuncInfo, nonStr types.Object) bool {
+	info := f.Info()
+	type st struct{ need tri }
+	ok, nret := true, 0
+	fl := &Flow[st]{Fn: f}
+	fl.Node = func(n ast.Node, s st) []st {
+		if r, isRet := n.(*ast.ReturnStmt); isRet {
+			nret++
+			if len(r.Results) != 1 {
+				ok = false
+				return nil
+			}
+			res := ast.Unparen(r.Results[0])
+			switch {
+			case IsNilIdent(info, res):
+				if s.need != triNo {
+					ok = false
+				}
+			case s.need == triYes:
+				if nonStr == nil || IdentObj(info, res) != nonStr {
+					ok = false
+				}
+			}
+			return nil
+		}
+		return []st{s}
+	}
+	fl.Leaf = func(e ast.Expr, s st) (t, fs []st) {
+		if call, isCall := ast.Unparen(e).(*ast.CallExpr); isCall {
+			if _, isNeed := MethodCall(info, call, "jsontext", "stateEntry", "NeedObjectName"); isNeed {
+				return []st{{triYes}}, []st{{triNo}}
+			}
+		}
+		return []st{s}, []st{s}
+	}
+	fl.Run(st{})
+	return ok && nret > 0
 }
